@@ -48,7 +48,9 @@ FilterClauses ==
 
 Filter == /\ stage = "filter"
           /\ IF ~c.filt.seen
-               THEN /\ fails' = fails \o (IF Raised THEN <<"C01.totality.raised_before_filtering">> ELSE <<"C02.filter_never_called">>)
+               THEN /\ fails' = fails \o (IF Raised THEN <<"C01.totality.raised_before_filtering">>
+                                      ELSE <<"C02.filter_never_called">> \o (IF c.has_table /\ Len(c.rows) > 0   \* rows that no analysis of THIS call produced
+                                                                              THEN <<"C01.table_returned_without_analysing_the_signal">> ELSE <<>>))
                     /\ stage' = "finish"
                ELSE /\ fails' = fails \o FilterClauses
                     /\ stage' = IF Len(c.filt.pos) = c.n + 2 * padlen THEN "extrema" ELSE "finish"
@@ -107,7 +109,8 @@ Assemble ==
 \* ---- C04 ----
 IntFields == <<"period", "time_peak", "time_trough", "time_decay", "time_rise", "volt_peak", "volt_trough", "volt_decay", "volt_rise", "volt_amp2", "time_rdsym", "time_ptsym">>
 ShapeClauses ==
-  LET f == Strict([k \in 1 .. Len(rows) |-> ShapeOf(c.sig, c.amp.vals, rows[k], peakC)])
+  LET ampv == IF Len(c.amp.vals) = c.n THEN c.amp.vals ELSE Strict([i \in 1 .. c.n |-> 0])      \* total: no amplitude logged (never asked for) -> band_amp is not judged
+      f == Strict([k \in 1 .. Len(rows) |-> ShapeOf(c.sig, ampv, rows[k], peakC)])
       bad(name) == \E k \in 1 .. Len(rows) : c.rows[k][name] # f[k][name]
       ampOK == /\ c.amp.seen /\ c.amp.fs = c.call.fs /\ c.amp.flo = c.call.flo /\ c.amp.fhi = c.call.fhi
                /\ c.amp.remove_edges = FALSE /\ c.amp.ncyc = Three /\ c.amp.extra = <<>> /\ c.amp.nargs = 0
@@ -159,6 +162,11 @@ DetectClauses ==
   IF c.method = "cycles"
   THEN Fail(Labels = DetectCycles(Codes, c.thr, IF c.call.mnc_tk # -1 THEN c.call.mnc_tk ELSE 3), "C06.labels")
   ELSE Fail(Labels = DetectAmp([k \in 1 .. Len(c.rows) |-> c.rows[k].burst_fraction_code], c.thr.burst_fraction, EffM), "C07.labels")
+    \* ... and on the EXACT fractions of the logged detector mask (a fraction that equals the threshold qualifies, whatever the rounding
+    \* of the implementation's own quotient), when mask and threshold were logged exactly
+    \o (IF c.dt.seen /\ Len(c.dt.mask) = c.n /\ "bft" \in DOMAIN c.call /\ c.call.bft[2] > 0 /\ Indexable(rows) /\ Len(rows) = Len(c.rows)
+        THEN Fail(Labels = DetectAmpExact([k \in 1 .. Len(rows) |-> BurstFraction(c.dt.mask, rows[k])], c.call.bft, EffM), "C07.labels_not_the_rule_on_the_exact_fractions")
+        ELSE <<>>)
 
 DetectBursts == /\ stage = "detect"
                 /\ fails' = fails \o DetectClauses
